@@ -370,6 +370,10 @@ def run_life(lay, history, fms=False, faults=None, hooks=(), fbvalue=None, obser
         g.clear()
         if not _G.poisoned:
             reset_world()
+    if life.hang:
+        # An unresponsive robot thread cannot be told apart from an overloaded machine with certainty, and the stuck
+        # thread makes this process unusable: report it as a harness failure (exit 2), never as a VIOLATION.
+        raise core.HarnessError(f"robot thread unresponsive for {BATON_TIMEOUT:.0f} s (layout {lay['name']}, history {history!r}, faults {faults}); see /tmp/verif-hang-{os.getpid()}.txt")
     return life
 
 
